@@ -59,7 +59,7 @@ type c03Obs struct {
 
 func TestVerif_C03(t *testing.T) {
 	verifWriteConsts(t)
-	res := newVerifResult("duration table (boundary/adversarial strings, plus 3000 random int64 durations in thorough) x session ages {fresh, 8h, 15h59m, 23h59m, 25h, 40d} (cookie iat or client-certificate NotBefore) x {ssh, x509, x509-kubernetes}; role-requesting and refresh endpoints; non-trivial = a certificate was issued; distinct by (duration, age, type, validity length)")
+	res := newVerifResult("duration table (boundary/adversarial strings, plus 3000 random int64 durations in thorough) x session ages {fresh, 8h, 15h59m, 23h59m, 25h, 40d} (cookie iat, cookie upgraded by a late second factor, or client-certificate NotBefore) x {ssh, x509, x509-kubernetes}; role-requesting and refresh endpoints; non-trivial = a certificate was issued; distinct by (duration, age, type, validity length)")
 	env := verifSetup(t, func(c *AppConfigFile, dir string) {
 		c.Base.AllowedAuthBackendsForWebUI = []string{"password"}
 		c.Base.AllowedAuthBackendsForCerts = []string{"U2F"}
@@ -73,6 +73,7 @@ func TestVerif_C03(t *testing.T) {
 	ages := []time.Duration{0, 8 * time.Hour, 15*time.Hour + 59*time.Minute, 23*time.Hour + 59*time.Minute, 25 * time.Hour, 40 * 24 * time.Hour}
 	types := []string{"ssh", "x509", "x509-kubernetes"}
 	var all []c03Obs
+	rng03 := verifRand()
 	durs := c03Durations(verifThorough())
 	maxLife := int64(24 * time.Hour)
 	oracle := func(o *c03Obs) {
@@ -128,6 +129,20 @@ func TestVerif_C03(t *testing.T) {
 		switch cred {
 		case "cookie":
 			req.AddCookie(authCookie(env.sessionJWT("alice", AuthTypeU2F, o.iat, o.iat, now.Unix()+3600)))
+		case "upgraded":
+			// a password session authenticated `age` ago gains its second factor only NOW, through the
+			// function every 2FA handler ends in: the authenticated-at instant must not move forward
+			base := env.sessionJWT("alice", AuthTypePassword, o.iat, o.iat, now.Unix()+3600)
+			up, err := env.state.updateAuthJWTWithNewAuthLevel(base, AuthTypePassword|AuthTypeU2F)
+			if err != nil {
+				t.Fatalf("updateAuthJWTWithNewAuthLevel: %v", err)
+			}
+			if rng03.Intn(2) == 0 { // and sometimes a second upgrade on top
+				if up2, err := env.state.updateAuthJWTWithNewAuthLevel(up, AuthTypePassword|AuthTypeU2F|AuthTypeTOTP); err == nil {
+					up = up2
+				}
+			}
+			req.AddCookie(authCookie(up))
 		case "tlscert":
 			withTLS(req, env.keymasterChain("alice", time.Unix(o.iat, 0), &keys.ec.PublicKey), "")
 			env.state.Config.Base.AllowedAuthBackendsForCerts = []string{"password"}
@@ -161,6 +176,14 @@ func TestVerif_C03(t *testing.T) {
 					continue
 				}
 				run(d, d != "", age, ct, "cookie")
+			}
+		}
+	}
+	// sessions whose second factor arrives late: the 24 h run from the first authentication
+	for _, d := range []string{"", "24h", "1h", "16h", "100h"} {
+		for _, age := range ages {
+			for _, ct := range types {
+				run(d, d != "", age, ct, "upgraded")
 			}
 		}
 	}
